@@ -28,7 +28,7 @@ func main() {
 			"non-trivial = a live entry was replaced or removed and the registry observed afterwards. " +
 			"concurrent (sub-processes, one per workload: tools all ops, tools under unthrottled registration, prompts list, prompts get, resources list, resources read, templates list, notification handlers): 3 writer goroutines (register / re-register / unregister on disjoint names) against 6 reader goroutines on 4 client sessions; " +
 			"each observation is checked post hoc against the writers' logical-clock log; non-trivial = an observation whose window overlapped at least one write. " +
-			"register race (sub-processes, per registry): 5 fresh servers x 300 rounds in which 8 goroutines register the SAME fresh name at the same moment (GOMAXPROCS >= 4), then list + hook: one entry per name, order slice == key set",
+			"register race (sub-processes, per registry): 8 fresh servers x 1000 rounds in which 8 goroutines register the SAME fresh name at the same moment (GOMAXPROCS >= 4), then list + hook: one entry per name, order slice == key set",
 		Run: func(c *hk.Ctx) {
 			runSequential(c)
 			runConcurrent(c)
